@@ -238,3 +238,12 @@ mut("C32", "R32.2", "get-off-by-one-position", PA + "analysis/k_tuple.rs",
     "            let mut terminal_index = (self.t >> ((i + 1) * self.bits() as usize)) & self.mask();")
 mut("C32", "R32.2", "set-clears-at-other-position", PA + "analysis/k_tuple.rs",
     "        let mask = !(terminal_mask << (i * bits));", "        let mask = !(terminal_mask << bits);")
+# ---- C06 (thin: cache coherence)
+mut("C06", "R06.1", "first-set-stored-under-other-k", PA + "analysis/k_decision.rs",
+    "            *self.0[k].borrow_mut() = entry;", "            *self.0[k.saturating_sub(1)].borrow_mut() = entry;")
+mut("C06", "R06.1", "follow-solver-called-with-other-k", PA + "analysis/k_decision.rs",
+    "            let (r, f) = follow_k(grammar_config, k, first_cache, self);",
+    "            let (r, f) = follow_k(grammar_config, k.max(1), first_cache, self);")
+mut("C06", "R06.2", "solver-reads-slot-directly", PA + "analysis/first.rs",
+    "        let last_first_set = first_cache.get(k - 1, grammar_config).borrow().clone();",
+    "        let last_first_set = first_cache.0[k - 1].borrow().clone();")
